@@ -327,6 +327,39 @@ func checkC04(c *Ctx) {
 					joined = true
 				}
 			}
+			// the join may sit in a helper (`stopLoops()`): the helper's call precedes the reset, and
+			// the helper passes the join on every way to a return that lets disengage go on
+			if !joined {
+				for _, wd := range deepInstrs(p, disengage, 2, func(call ssa.Instruction, _ *ssa.Function) bool { return len(emitIdents(p, call)) == 0 }) {
+					if !isCallTo(wd.in, "(*sync.WaitGroup).Wait") || len(wd.chain) == 0 || !instrDominates(wd.anchor, s) {
+						continue
+					}
+					h := wd.in.Parent()
+					call, _ := wd.anchor.(*ssa.Call)
+					all := true
+					for _, r := range returnsOf(h) {
+						if call != nil && len(r.Results) == 1 {
+							if v, isC := constBool(derefCell(resultOf(r, 0))); isC && !v {
+								onlyOnTrue := false
+								for _, g := range rawGuardsAt(s.Block()) {
+									if g.Cond == ssa.Value(call) && g.Positive {
+										onlyOnTrue = true
+									}
+								}
+								if onlyOnTrue {
+									continue
+								}
+							}
+						}
+						if !(instrDominates(wd.in, r) || mustPrecede(h, []ssa.Instruction{wd.in}, r)) {
+							all = false
+						}
+					}
+					if all {
+						joined = true
+					}
+				}
+			}
 			if !joined {
 				why = "emitted before the loops are joined (the lock is released while waiting; a concurrent Enable* call would not be undone)"
 				continue
@@ -433,16 +466,19 @@ func checkC04(c *Ctx) {
 	}
 
 	// ---- R2
-	find := func(pred func(in ssa.Instruction) bool) ssa.Instruction {
-		var out ssa.Instruction
-		eachInstr(disengage, func(in ssa.Instruction) {
-			if out == nil && pred(in) {
-				out = in
+	// the steps of the hand-back may be written in disengage itself or in helpers it calls (stopLoops,
+	// restoreTerminal): each is located through static calls, with the instruction of disengage it is
+	// reached through (its anchor) for questions of order
+	disDeep := deepInstrs(p, disengage, 2, func(call ssa.Instruction, _ *ssa.Function) bool { return len(emitIdents(p, call)) == 0 })
+	find := func(pred func(in ssa.Instruction) bool) *deepInstr {
+		for i := range disDeep {
+			if pred(disDeep[i].in) {
+				return &disDeep[i]
 			}
-		})
-		return out
+		}
+		return nil
 	}
-	ttyCall := func(m string) ssa.Instruction {
+	ttyCall := func(m string) *deepInstr {
 		return find(func(in ssa.Instruction) bool {
 			cc := callCommon(in)
 			return cc != nil && cc.IsInvoke() && typeName(cc.Value.Type()) == "tcell.Tty" && cc.Method.Name() == m
@@ -459,15 +495,52 @@ func checkC04(c *Ctx) {
 		}
 		return false
 	})
+	stopD := &deepInstr{in: stopCall, anchor: stopCall}
 	// "before" = on every branch-consistent path (the same flag may be tested twice: once around the
-	// drain and once for the early return)
-	before := func(a, b ssa.Instruction) bool {
-		return a != nil && b != nil && (instrDominates(a, b) || mustPrecede(disengage, []ssa.Instruction{a}, b))
+	// drain and once for the early return); two steps inside the same helper are ordered there, a step
+	// inside a helper that can return early without it counts only if disengage goes on only when the
+	// helper said it was done
+	before := func(a, b *deepInstr) bool {
+		if a == nil || b == nil {
+			return false
+		}
+		if a.anchor == b.anchor && a.in.Parent() == b.in.Parent() {
+			f := a.in.Parent()
+			return instrDominates(a.in, b.in) || mustPrecede(f, []ssa.Instruction{a.in}, b.in)
+		}
+		if !(instrDominates(a.anchor, b.anchor) || mustPrecede(disengage, []ssa.Instruction{a.anchor}, b.anchor)) {
+			return false
+		}
+		if len(a.chain) == 0 {
+			return true
+		}
+		// a is inside a helper: on every return of the helper that lets disengage go on, a was passed
+		h := a.in.Parent()
+		call, _ := a.anchor.(*ssa.Call)
+		for _, r := range returnsOf(h) {
+			if call != nil && len(r.Results) == 1 {
+				if v, isC := constBool(derefCell(resultOf(r, 0))); isC && !v {
+					goesOn := true
+					for _, g := range rawGuardsAt(b.anchor.Block()) {
+						if g.Cond == ssa.Value(call) && g.Positive {
+							goesOn = false
+						}
+					}
+					if !goesOn {
+						continue // disengage returns when the helper answered false
+					}
+				}
+			}
+			if !(instrDominates(a.in, r) || mustPrecede(h, []ssa.Instruction{a.in}, r)) {
+				return false
+			}
+		}
+		return true
 	}
-	c.Check(before(drain, stopCall), "C04-R2", "disengage:Drain-before-Stop", p.pos(stopCall.Pos()), "Tty.Drain() precedes Tty.Stop() on every path")
-	okN := notify != nil && before(notify, stopCall) && isNilConst(callCommon(notify).Args[0])
+	c.Check(before(drain, stopD), "C04-R2", "disengage:Drain-before-Stop", p.pos(stopCall.Pos()), "Tty.Drain() precedes Tty.Stop() on every path")
+	okN := notify != nil && before(notify, stopD) && isNilConst(callCommon(notify.in).Args[0])
 	c.Check(okN, "C04-R2", "disengage:NotifyResize(nil)-before-Stop", p.pos(stopCall.Pos()), "the resize callback is unregistered before Stop")
-	c.Check(before(wait, stopCall), "C04-R2", "disengage:join-before-Stop", p.pos(stopCall.Pos()), "both loops have exited before the Tty is stopped (no background I/O after Stop)")
+	c.Check(before(wait, stopD), "C04-R2", "disengage:join-before-Stop", p.pos(stopCall.Pos()), "both loops have exited before the Tty is stopped (no background I/O after Stop)")
 	c.Check(before(closeStop, wait) && before(drain, wait), "C04-R2", "disengage:signal-before-join", p.pos(stopCall.Pos()), "stopQ is closed and the Tty drained before waiting for the loops")
 	// all writes before Stop: nothing emitting is reachable after Stop in disengage, finalize, finish
 	isWrite := func(in ssa.Instruction) bool {
